@@ -4,3 +4,25 @@ claim("C01",
       "Exact real arithmetic (no rounding); sizes bounded; torch handler table (conformance-tested) is the trusted model of torch; cost list lifted exactly.",
       "DESIGN.md §3 C01", SMT)
 NA["C17"] = "dtype/device contract over cast/simulate histories: the state is torch metadata steered by object identity over a finite dtype alphabet; no numeric input for a solver to quantify over (DESIGN.md §4)"
+claim("C02",
+      "Bounded symbolic model checking of non-anticipativity: the real compute_hedge (both branches) is run on two instruments whose buffers share symbols up to column t and differ afterwards, for every t; z3 proves hedge[:, :, :t+1] identical and the last column equal to the previous one, for every registered feature, uninterpreted/Linear/Naked/BlackScholes/WhalleyWilmott models, N<=2, T<=6, H<=2; the same hedger object is re-used across evaluations so stale state shows.",
+      "Row-wise models only (uninterpreted function = any row-wise model); exact reals; Black-Scholes based models use the extended-real element model (analytic deltas) or arbitrary values for undefined constant operations (autogreek deltas).",
+      "DESIGN.md §3 C02", SMT)
+claim("C03",
+      "Bounded symbolic model checking: for every feature and step i, get(i) == get(None)[:, i] on symbolic buffers; a stepwise hedger whose model ignores prev_hedge equals the vectorised hedger in hedge, P&L and loss (same uninterpreted model symbol); the prev_hedge columns seen at step i are the model's output at step i-1 (zeros at step 0, also on a second evaluation). N<=3, H<=3, T<=6.",
+      "Exact reals; uninterpreted row-wise model; Empty feature excluded from value comparison.",
+      "DESIGN.md §3 C03", SMT)
+claim("C12",
+      "Bounded symbolic model checking: payoff functions and derivative classes are executed on symbolic positive paths (T<=6), symbolic strike, call/put; z3 proves equality with the written-out contractual definitions including tie conventions, the orderings, parity, clause order, and the forward-start index floor(start/dt) for symbolic start and dt (path explorer forks over feasible indices); variance swap via log product-law instances.",
+      "Exact reals; N<=2 (row-wise functions).", "DESIGN.md §3 C12", SMT)
+claim("C13",
+      "Bounded symbolic model checking: simulate() of all eight primaries is executed with symbolic maturity and step size (generator stubbed to record n_steps) and z3 proves n_steps == ceil(M/dt)+1 (QF_LIRA/NIRA via ToInt), every underlier receives the maturity, time_to_maturity(i) == (T-1-i)*dt for i in -T..T-1, and payoff/features/hedge share the T-column grid.",
+      "Exact real arithmetic: changes that only affect the float rounding of maturity/dt are invisible (seed C13-m2 is such a change and is not caught); maturity/dt <= 6.",
+      "DESIGN.md §3 C13", SMT)
+claim("C16",
+      "Bounded symbolic model checking with an aliasing model: after every public computation (each feature get(None)/get(i), payoff, listed spot, compute_hedge/pl/portfolio, criteria, functional forms, autogreek) every buffer element is proved equal to the symbol it held before (in-place writes through views are modelled by shared numpy payloads); operation sequences of length <=3 on one hedger are proved to give the same hedge/P&L as a fresh hedger.",
+      "Exact reals; view/copy behaviour of the handler table is the trusted model of torch aliasing; dtype changes in histories excluded.",
+      "DESIGN.md §3 C16", SMT)
+claim("C20",
+      "Symbolic model checking over all real inputs: clamp/leaky_clamp (functions and modules, tensor/scalar/broadcast bounds, one-sided, inverted, both inverted_output modes), the Whalley-Wilmott band rule and width (cbrt axioms), SVI, bilerp, Box-Muller and realized volatility are executed symbolically and proved equal to their documented formulas.",
+      "Exact reals; leaky slope in [0,1]; Whalley-Wilmott on the open Black-Scholes domain.", "DESIGN.md §3 C20", SMT)
